@@ -98,7 +98,10 @@ class Particle:
             if value.type is not ValueType.ELEMENT or not value.is_array:
                 raise ValueError('{} must be an element array!')
             return [
-                Operator(ele.name, ele.pop('functionName').val_str, copy.deepcopy(dict(ele)))
+                Operator(ele.name, ele.pop('functionName').val_str, copy.deepcopy({
+                    key: attr for key, attr in ele.items()
+                    if key != 'name'  # The element's own name, already stored on the operator.
+                }))
                 for ele in value.iter_elem()
             ]
 
@@ -123,7 +126,8 @@ class Particle:
             # Everything else.
             options = {
                 value.name.casefold(): copy.deepcopy(value)
-                for value in elem.values()
+                for key, value in elem.items()
+                if key != 'name'  # The element's own name, already stored on the particle.
             }
 
             systems[elem.name.casefold()] = Particle(
